@@ -168,13 +168,22 @@ func launch(env vh.Env, job Job) ([]Outcome, string, error) {
 	if err := os.WriteFile(jobPath, jb, 0o644); err != nil {
 		return nil, "", err
 	}
-	cmd := exec.Command("go", args...)
-	cmd.Dir = mod
-	cmd.Env = append(os.Environ(), "APPSYS_JOB="+jobPath, "APPSYS_OUT="+outPath)
-	out, runErr := cmd.CombinedOutput()
-	ob, err := os.ReadFile(outPath)
-	if err != nil {
-		return nil, string(out), fmt.Errorf("worker wrote no result (%v)", runErr)
+	var out, ob []byte
+	var runErr error
+	for attempt := 0; ; attempt++ {
+		cmd := exec.Command("go", args...)
+		cmd.Dir = mod
+		cmd.Env = append(os.Environ(), "APPSYS_JOB="+jobPath, "APPSYS_OUT="+outPath)
+		out, runErr = cmd.CombinedOutput()
+		ob, err = os.ReadFile(outPath)
+		if err == nil {
+			break
+		}
+		// The worker process died (a fatal error of the Go runtime somewhere in the many instances it hosts, the OOM
+		// killer ...). Once is retried; twice is reported.
+		if attempt >= 1 {
+			return nil, string(out), fmt.Errorf("worker wrote no result, twice (%v)", runErr)
+		}
 	}
 	var outs []Outcome
 	if err := json.Unmarshal(ob, &outs); err != nil {
